@@ -151,9 +151,12 @@ def guards(ctx: Ctx):
     check_side_paths(ctx, "identity-on-refusal", f"{SMO}::_SingleSidedMovingAvgSmoother.smooth", body, [("not self._can_smooth(values)", "values")], "when smoothing is refused the unsmoothed values are returned unchanged")
     sm = ctx.repo.cls(SMO, "Smoother")
     fac = ctx.repo.lookup(sm, "factory")
-    body = SUMMARIZER.summarize(fac.node)
-    from ..dectab import Sym, SymInterp, eval_ctor
+    # private helpers (methods and module-level functions such as `_smoother_class(function)`) inlined; module-level string
+    # constants (`_DEFAULT_FUNCTION`) read as their values
+    body = expand(ctx.repo, sm, "factory", stop=lambda mm: mm.kind in ("lazyproperty", "property"))
+    from ..dectab import Sym, SymInterp, eval_ctor, module_constants
 
+    mconsts = {k: v for k, v in module_constants(sm.module.tree).items() if isinstance(v, ast.Constant)} if hasattr(sm.module, "tree") else {}
     where = f"{SMO}::Smoother.factory"
     bad, n, undec = [], 0, None
     target = ctx.repo.cls(SMO, "_SingleSidedMovingAvgSmoother")
@@ -167,6 +170,8 @@ def guards(ctx: Ctx):
                 return sd
             if isinstance(x, ast.Name) and x.id == "_SingleSidedMovingAvgSmoother":
                 return "_SingleSidedMovingAvgSmoother"
+            if isinstance(x, ast.Name) and x.id in mconsts:
+                return mconsts[x.id].value
             raise KeyError
 
         try:
